@@ -156,5 +156,141 @@ class CliConstraints(Stream):
             yield c
 
 
+INCLUDE_NAMES = ["base.txt", "common.txt", "requirements.txt"]
+INCLUDE_DIRS = ["", "services/a/", "services/b/", "sub/", "../"]
+
+
+def gen_include_tree(rng, depth, cwd="", reg=None):
+    """a tree of requirement files: {"reqs": [...], "incl": [[relative spelling, subtree], ...]}; the spellings come
+    from a small pool, so one spelling names different files from different directories (pip: an include is relative
+    to the including file)"""
+    reg = {"requirements.txt"} if reg is None else reg     # the top file itself
+    node = {"reqs": [], "incl": []}
+    if depth <= 0:
+        return node
+    for _ in range(rng.randint(1, 3)):
+        rel = rng.choice(INCLUDE_DIRS) + rng.choice(INCLUDE_NAMES)
+        res = os.path.normpath(os.path.join(cwd, rel))
+        if res.startswith("..") or res in reg:
+            continue
+        reg.add(res)
+        node["incl"].append([rel, gen_include_tree(rng, depth - 1, os.path.dirname(res), reg)])
+    return node
+
+
+def tree_nodes(node):
+    yield node
+    for _, sub in node["incl"]:
+        for n in tree_nodes(sub):
+            yield n
+
+
+def write_include_tree(path, node):
+    os.makedirs(os.path.dirname(path), exist_ok=True)
+    lines = list(node["reqs"])
+    for rel, sub in node["incl"]:
+        lines.insert(min(len(lines), 1), "-r " + rel)
+        write_include_tree(os.path.normpath(os.path.join(os.path.dirname(path), rel)), sub)
+    with open(path, "w") as f:
+        f.write("\n".join(lines) + "\n")
+
+
+class CliNestedInputs(Stream):
+    """the inputs of one compile spread over a tree of requirement files that include one another (the same relative
+    spelling in several directories, several levels): every requirement of every file of the tree is an input"""
+    name = "cli-nested-inputs"
+    quick_n = 120
+    thorough_n = 5000
+    batch = 40
+
+    def setup(self):
+        self.tmp = tempfile.mkdtemp(prefix="rvc02n")
+
+    def teardown(self):
+        shutil.rmtree(getattr(self, "tmp", ""), ignore_errors=True)
+
+    def generate(self, rng):
+        case = SS.gen_universe(rng, "dag-free")
+        case["constraints"] = []
+        names = list(case["universe"])
+        trees = []
+        for rs in case["inputs"]:
+            for n in rng.sample(names, rng.randint(1, len(names))):
+                rs.append(rng.choice(SS.SPELL[n]))
+            tree = gen_include_tree(rng, rng.choice([1, 2, 2, 3]))
+            nodes = list(tree_nodes(tree))
+            for t in rs:
+                rng.choice(nodes)["reqs"].append(t)
+            trees.append(tree)
+        case["trees"] = trees
+        return case
+
+    def impl(self, case):
+        from rv.core import digest
+        from rv.props.c07 import materialise
+        from rv.props.c09 import run_cli
+        GL.reset_caches()
+        top = os.path.join(self.tmp, digest(case))
+        shutil.rmtree(top, ignore_errors=True)
+        d = os.path.join(top, "work")
+        os.makedirs(d)
+        materialise(case, d)
+        files = []
+        for i, tree in enumerate(case["trees"]):
+            write_include_tree(os.path.join(d, "in%d" % i, "requirements.txt"), tree)
+            files.append(os.path.join("in%d" % i, "requirements.txt"))
+        r = run_cli(d, files)
+        pins = {}
+        for l in r["stdout"].splitlines():
+            m = re.match(r"^([A-Za-z0-9._-]+)==(\S+)", l)
+            if m:
+                pins[GL.norm(m.group(1))] = m.group(2)
+        shutil.rmtree(top, ignore_errors=True)
+        return {"code": r["code"], "exception": r["exception"], "pins": pins, "stderr_tail": r["stderr"][-200:]}
+
+    def flags(self, case, r):
+        fl = ["exit:%s" % r["code"]]
+        depth = lambda n: 1 + max([depth(s) for _, s in n["incl"]] or [0])
+        fl.append("include-depth-%d" % (max(depth(t) for t in case["trees"]) - 1))
+        seen = {}
+        for t in case["trees"]:
+            for n in tree_nodes(t):
+                for rel, _ in n["incl"]:
+                    seen[rel] = seen.get(rel, 0) + 1
+        if any(c > 1 for c in seen.values()):
+            fl.append("one-spelling-names-several-files")
+        return fl
+
+    def oracle(self, case, r):
+        if r["exception"]:
+            return [("C02/cli-traceback", {"exception": r["exception"], "stderr": r["stderr_tail"]})]
+        if r["code"] != 0:
+            return []
+        fails = []
+        U = {GL.norm(n): {str(GL.V(v)): reqs for v, reqs in vs.items()} for n, vs in case["universe"].items()}
+        missing = sorted({GL.norm(GL.P(t).name) for rs in case["inputs"] for t in rs} - set(r["pins"]))
+        if missing:
+            fails.append(("C02/input-requirement-without-a-pin", {"projects": missing, "pins": r["pins"]}))
+        # unconditional requirements of what was emitted
+        for k, v in r["pins"].items():
+            for t in U.get(k, {}).get(str(GL.V(v)), []):
+                q = GL.P(t)
+                if q.marker is None and GL.norm(q.name) not in r["pins"]:
+                    fails.append(("C02/requirement-of-an-emitted-pin-without-a-pin", {"pin": k, "requirement": t}))
+        return fails
+
+    def shrink(self, case):
+        for i, tree in enumerate(case["trees"]):
+            nodes = list(tree_nodes(tree))
+            for j, n in enumerate(nodes):
+                for k in range(len(n["reqs"])):
+                    import copy
+                    c = copy.deepcopy(case)
+                    t = list(tree_nodes(c["trees"][i]))[j]["reqs"].pop(k)
+                    if t in c["inputs"][i]:
+                        c["inputs"][i].remove(t)
+                    yield c
+
+
 def streams():
-    return [SS.CompileStream("C02"), CliConstraints()]
+    return [SS.CompileStream("C02"), CliConstraints(), CliNestedInputs()]
